@@ -25,20 +25,20 @@ TRUSTED = ["CPython ast", "indilint abstract interpreter"]
 OUTPUT_OPS = ("write", "drain", "flush", "writelines", "sendall")
 
 
+_SENDERS = {}
+
+
 def senders(p):
-    """(class, coroutine, entry function) for every connection class that writes to a stream."""
+    """(class, coroutine, entry function) for every connection class that writes to a stream: the entry is the plain
+    method that schedules a coroutine of the class as a task; the coroutine (with its private helpers inlined) performs the
+    output operations.  Found on interpreted paths, so temporaries and helper methods in between do not matter."""
+    if id(p) in _SENDERS:
+        return _SENDERS[id(p)]
     out = []
-    for fi in p.functions:
-        if not fi.module.name.startswith("indi.transport") or fi.cls is None or not fi.is_async:
-            continue
-        ops = [n for n in walk_no_nested(fi.node) if isinstance(n, ast.Call) and isinstance(n.func, ast.Attribute) and n.func.attr in OUTPUT_OPS and "self" in ast.unparse(n.func.value)]
-        if not ops:
-            continue
-        # the router-facing entry: the method of the class that schedules this coroutine as a task (found on the
-        # interpreted paths, so a temporary between the call and create_task does not matter)
-        entry = None
-        for g in list(fi.cls.methods.values()):
-            if g is fi or g.is_async:
+    for ci in [c for c in p.classes.values() if c.module.name.startswith("indi.transport")]:
+        found = {}
+        for g in list(ci.methods.values()):
+            if g.is_async or g.name.startswith("__"):
                 continue
             try:
                 gpaths = run_method(p, g)
@@ -47,9 +47,20 @@ def senders(p):
             for pa in gpaths:
                 for e in pa.calls(method="create_task"):
                     a0 = e.data["args"][0] if e.data["args"] else None
-                    if isinstance(a0, Term) and is_call(a0, method=fi.name):
-                        entry = g
-        out.append((fi.cls, fi, entry))
+                    callee = a0.args[0] if isinstance(a0, Term) and a0.op == "call" else None
+                    if isinstance(callee, Fn) and callee.fi.is_async and callee.fi.cls is not None and callee.fi.cls in ci.mro and show(callee.self_val) == "self":
+                        # a private entry is part of the public method that calls it: keep the outermost caller
+                        if callee.fi not in found or not g.name.startswith("_"):
+                            found[callee.fi] = g
+        for co, entry in found.items():
+            try:
+                cpaths = run_method(p, co)
+            except Exception:
+                continue
+            has_out = any(e.kind == "call" and isinstance(e.data["term"].args[0], Term) and e.data["term"].args[0].op == "attr" and e.data["term"].args[0].args[1] in OUTPUT_OPS and "self" in show(e.data["term"].args[0].args[0]) for pa in cpaths for e in pa.events)
+            if has_out:
+                out.append((ci, co, entry))
+    _SENDERS[id(p)] = out
     return out
 
 
